@@ -22,7 +22,7 @@ from rules import duke_common as D
 SPECF = os.path.join(os.path.dirname(os.path.dirname(os.path.abspath(__file__))), "spec", "c17.json")
 
 CLAIM = {
-    "text": "Decided on every path of the code (not on sampled inputs): (R17.1) in the five attribute-dispatch loops of the class reader "
+    "text": "Decided on every path of the code (not on sampled inputs): (R17.2 entry) duke::read_class and read_class_multi hand the caller's own stream to class_reader::read (no buffering adaptor around it); (R17.1) in the five attribute-dispatch loops of the class reader "
             "(class, field, method, Code, record component) each arm consumes the attribute exactly once on every normally completing path - "
             "`skip(length)`/`read_u8_vec(length)` with the loop's own u32 length, or a parse of the body, or nothing for the JVMS zero-length "
             "attributes - and each loop reads `u16 count` then per attribute `u16 name, u32 length`; (R17.2) every ControlFlow::Break path "
